@@ -566,7 +566,7 @@ def proc_state(env):
     from rqalpha.utils import functools as F
     return dict(reinvest=bool(StockPosition.dividend_reinvestment), cash_return=bool(StockPosition.cash_return_by_stock_delisted),
                 t1=bool(StockPosition.t_plus_enabled), env_is_current=Environment.get_instance() is env,
-                margin_switch_on=not hasattr(Account, '_margin'),
+                margin_switch_on=not hasattr(Account, '_margin'), future_apis=hasattr(__import__('rqalpha.api', fromlist=['x']), 'get_future_contracts'),
                 cached_entries=sum(f.cache_info().currsize for f in F.cached_functions))
 
 
